@@ -41,7 +41,7 @@ COMPONENTS = {
              "asyncio (CPython)"],
     "stub": ["VirtualLoop selector/clock", "os/glob/random (hid)", "serial_asyncio", "gateway firmware, hidraw node presence, bus"],
 }
-PROBES = ["loss-with-send-in-flight", "loss-with-send-queued", "loss-during-handshake", "loss-during-reconnect-wait",
+PROBES = ["two-faults-in-one-run", "loss-with-send-in-flight", "loss-with-send-queued", "loss-during-handshake", "loss-during-reconnect-wait",
           "reconnect-limit-exhausted", "open-failed-after-return", "cancel-while-awaiting-report",
           "wrap-300-sends", "retry-after-reconnect-exceptions-off", "confirm-lost", "answer-lost", "confirm-late"]
 
@@ -142,6 +142,21 @@ def variants(base, base_res, tier, r):
             wrap = (j % 7 == 3)
             out.append(mk([{"kind": "cancel-op", "at_event": k, "style": style}],
                           post_sends=300 if wrap else 2))
+        # two faults in one run: loss + cancel, cancel + cancel, loss + later loss
+        all_idx = list(range(max(first - 2, 0), n_events))
+        for _ in range(10 if tier == "quick" else 60):
+            if len(all_idx) < 2:
+                break
+            k1, k2 = sorted(r.sample(all_idx, 2))
+            combo = r.choice(["lose+cancel", "cancel+lose", "cancel+cancel", "lose+lose"])
+            f1 = {"kind": "lose", "mode": r.choice(["eof", "oserror"]), "at_event": k1,
+                  "return_after_us": ret_delay(), "open_failures": r.choice([0, 0, 1])}
+            f2 = {"kind": "lose", "mode": r.choice(["eof", "oserror"]), "at_event": k2,
+                  "return_after_us": ret_delay(), "open_failures": 0}
+            c1 = {"kind": "cancel-op", "at_event": k1, "style": r.choice(["cancel", "timeout"])}
+            c2 = {"kind": "cancel-op", "at_event": k2, "style": r.choice(["cancel", "timeout"])}
+            out.append(mk({"lose+cancel": [f1, c2], "cancel+lose": [c1, f2], "cancel+cancel": [c1, c2],
+                           "lose+lose": [f1, f2]}[combo]))
     else:
         nsends = base_res["_n_sends"]
         for i in range(nsends):
@@ -351,6 +366,10 @@ def _hooks(plan, ctx):
         hid = plan["driver"] in ("tridonic", "hasseb")
         ctx["t_callers_done"] = world.now_us()
         rr.post = []
+        # faults are placed inside the callers' phase; whatever has not fired by
+        # now is disarmed, so that "after the faults have stopped" is well defined
+        if world.log.triggers:
+            world.log.triggers.clear()
         if hid:
             # wait until the device is back for good; the RefModel plays the
             # application that calls connect() again once the limit is exhausted
@@ -432,12 +451,12 @@ def judge(rr, ctx):
         if phase["post"] and clause in ("answer-lost", "answer-of-other-command", "wrong-answer",
                                         "framing-error-not-reported"):
             # long after the faults have stopped: recovery is not clean
-            clause, site = "post-recovery-answers-misattributed", "after-" + ("+".join(fkinds) or "no-fault")
+            clause, site = "post-recovery-answers-misattributed", "after-" + _family(fkinds)
         elif clause in ("answer-lost", "answer-of-other-command", "wrong-answer",
                         "framing-error-not-reported"):
             # one defect family per fault history: after this fault the
             # answers reach the wrong command (shifted / lost / swapped)
-            clause, site = "answers-misattributed", "after-" + ("+".join(fkinds) or "no-fault")
+            clause, site = "answers-misattributed", "after-" + _family(fkinds)
         elif clause in ("response-type", "query-returned-none", "non-query-returned-value"):
             site = "%s@%s" % (site, "+".join(fkinds) or "no-fault")
         out.append(Violation(PROP, clause, detail, driver=drv, site=site, trigger=fkinds))
@@ -578,6 +597,16 @@ def _check_last_attempt_prefix(V, rr, u, specs):
                   cmd.devicetype), site=rr.plan["driver"])
 
 
+def _family(fkinds):
+    """With several faults in one run the misattribution is charged to the one
+    that is known to cause it (a cancelled send, a late confirmation)."""
+    if "cancel-op" in fkinds:
+        return "cancel-op"
+    if "late-confirm" in fkinds:
+        return "late-confirm"
+    return "+".join(fkinds) or "no-fault"
+
+
 def _recovery_site(rr, ctx):
     return "after-" + "+".join(sorted({f["kind"] for f in rr.plan.get("faults", [])}))
 
@@ -704,6 +733,8 @@ def run_plan(plan):
         w.probe("open-failed-after-return")
     if plan.get("post_sends", 0) >= 300:
         w.probe("wrap-300-sends")
+    if len(faults) >= 2 and (len(ctx["fault_t"]) + len(ctx["cancelled"])) >= 2:
+        w.probe("two-faults-in-one-run")
     if not plan["knobs"].get("exceptions_on_send", True) and getattr(dev, "detections", []):
         w.probe("retry-after-reconnect-exceptions-off")
     if faults and getattr(dev, "faults_fired", None):
